@@ -196,3 +196,48 @@ Proof.
   split; [vm_compute; reflexivity|]. split; [vm_compute; reflexivity|]. split; [exact x_guarded2|].
   split; vm_compute; reflexivity.
 Qed.
+
+Lemma x_example_queries :
+  Inv2 Hid ct0 x_s3 /\ live x_s3 0 /\ attached x_s3 0 /\ ancestors (fuel_of x_s3) x_s3 0 = Some [1] /\
+  get_depth x_s3 0 = Some 1.
+Proof.
+  split; [apply x_inv2; simpl; tauto|]. split; [unfold live; vm_compute; lia|].
+  repeat split; vm_compute; reflexivity.
+Qed.
+
+(* ---------- replace_with(node) on a parent-less receiver, the node being a detached tree ---------- *)
+Definition x_o11 := OReplaceWith 5 (Some 3).
+Definition x_s11 := Eval vm_compute in fst (step Hid ct0 x_s10 x_o11).
+Definition x_m11 := Eval vm_compute in fst (flip_ids (fst (step Hid ct0 x_s10 (ODetach 5))) 5 3).
+Lemma x_e11 : step Hid ct0 x_s10 x_o11 = (x_s11, RNone). Proof. vm_compute; reflexivity. Qed.
+Lemma x_m11_eq : fst (flip_ids (fst (step Hid ct0 x_s10 (ODetach 5))) 5 3) = x_m11.
+Proof. vm_compute; reflexivity. Qed.
+Lemma x_g11 : att_guard Hid ct0 x_m11 3.
+Proof.
+  assert (K1 : skids x_m11 3 = [2]) by (vm_compute; reflexivity).
+  assert (K0 : skids x_m11 2 = []) by (vm_compute; reflexivity).
+  split; [unfold live; vm_compute; lia|].
+  split; [apply (tree_shaped_single _ _ _ K1); apply tree_shaped_leaf; exact K0|]. split.
+  - apply (ids_apart_single_leaf _ _ _ _ K1 K0). intros _. vm_compute. discriminate.
+  - intros d Hr _. destruct (reach_single _ _ _ _ K1 Hr) as [->|Hr'].
+    + vm_compute. reflexivity.
+    + rewrite (reach_leaf _ _ _ K0 Hr'). vm_compute. reflexivity.
+Qed.
+Lemma x_guarded3 : guarded Hid ct0 x_s10 [x_o11].
+Proof.
+  eapply guarded_cons; [exact x_e11 | | exact I].
+  split; [vm_compute; reflexivity|]. split; [vm_compute; reflexivity|]. rewrite x_m11_eq. exact x_g11.
+Qed.
+Lemma x_example_replace_with :
+  Inv2 Hid ct0 x_s10 /\ parent x_s10 5 = None /\ detached x_s10 5 = false /\
+  detached (fst (step Hid ct0 x_s10 (ODetach 5))) 3 = true /\
+  att_guard Hid ct0 (fst (flip_ids (fst (step Hid ct0 x_s10 (ODetach 5))) 5 3)) 3 /\
+  step Hid ct0 x_s10 x_o11 = (x_s11, RNone) /\
+  detached x_s11 5 = true /\ detached x_s11 3 = false /\ parent x_s11 2 = Some 3 /\ id_of x_s11 3 = id_of x_s10 5.
+Proof.
+  split. { apply (inv2_history Hid ct0 [x_o9; x_o10] x_s8); [apply x_inv2; simpl; tauto | exact x_guarded2|].
+           cbn [trace]. rewrite x_e9. cbn [fst]. rewrite x_e10. simpl. tauto. }
+  split; [vm_compute; reflexivity|]. split; [vm_compute; reflexivity|]. split; [vm_compute; reflexivity|].
+  split; [rewrite x_m11_eq; exact x_g11|]. split; [exact x_e11|].
+  repeat split; vm_compute; reflexivity.
+Qed.
